@@ -98,6 +98,12 @@ CHECKS["C09"] = dict(
   note="Structure only: that OAEP ciphertext decrypts under the server key and is semantically secure is a property of crypto/rsa and is trusted. Trusted: symgo executor, z3, crypto stubs (vf_crypto.go). Capability masks are written in one (insertion) order. Bounds: passwords <=3/5 bytes, <=1 additional remote server. Outside: real RSA key sizes, passwords longer than the bound.",
   ref="DESIGN.md §4 C09")
 
+CHECKS["C16"] = dict(
+  technique="symbolic execution of go/ssa with SMT (z3, linear integer arithmetic): precision-many symbolic decimal digits and sign through the real Decimal String/SetString with math/big modelled as mathematical integers",
+  text="Bounded symbolic model checking of asetypes.NewDecimal, NewDecimalString, sanity, String, SetString, Cmp. For selected (precision, scale) pairs the magnitude is given by precision-many symbolic digits and a symbolic sign: String() must equal the exact decimal expansion computed from the digits by the harness (optional minus, no leading zeros, point, no trailing zeros, one digit on each side) and parse back to a Cmp-equal decimal. Numerals with symbolic digits, optional sign, point and surrounding spaces: accepted exactly when the significant integer digits fit precision-scale and the significant fraction digits fit the scale, then equal to the written number, otherwise an error. NewDecimal over symbolic precision/scale in -5..60: accepted for 1<=p<=38, 0<=s<=p, rejected for p>38, p<0, s<0, s>p.",
+  note="Trusted: symgo executor, its math/big.Int model (Int terms, digit-preserving SetString/Abs/String), strings and fmt.Sprintf(%0Ns) models, z3. Bounds: quick (p,s) in {(1,0),(1,1),(3,1),(5,5),(6,2)} and numerals of <=4+4 digits at (5,2),(4,4); thorough adds (18,4),(38,0),(38,19),(38,38) and a 28+10 digit numeral. Outside: the other (precision, scale) pairs, exponent syntax, precision 0.",
+  ref="DESIGN.md §4 C16")
+
 NOT_APPLICABLE = {
 }
 
